@@ -1,12 +1,15 @@
 #!/bin/bash
-# usage: try_mutant.sh <patch.diff> <ID> [tier] [extra args]  — apply to /repo, run the check, always revert.
+# usage: try_mutant.sh <patch.diff> <ID> [tier] [extra args] — apply the change to a scratch worktree of /repo's
+# HEAD (never to /repo itself), run the check against it with VERIF_REPO, and clean up.
 P="$1"; ID="$2"; TIER="${3:-quick}"; shift 3 2>/dev/null
-if ! git -C /repo diff --quiet; then echo "repo dirty"; exit 3; fi
-git -C /repo apply "$P" 2>/dev/null || { echo "patch does not apply cleanly"; git -C /repo reset -q --hard HEAD; exit 3; }
-/verif/bin/check "$ID" "$TIER" -evidence /tmp/mutant-evidence.json "$@" > /tmp/mutant.log 2>&1
+WT=/tmp/verif-mutwt
+if [ ! -d "$WT" ]; then git -C /repo worktree add --detach "$WT" HEAD >/dev/null 2>&1 || { echo "cannot create worktree"; exit 3; }; fi
+git -C "$WT" checkout -q --detach main 2>/dev/null; git -C "$WT" checkout -q -- . ; git -C "$WT" clean -qfd
+git -C "$WT" apply "$P" 2>/dev/null || { echo "patch does not apply cleanly"; exit 3; }
+VERIF_REPO="$WT" /verif/bin/check "$ID" "$TIER" "$@" > /tmp/mutant.log 2>&1
 rc=$?
-git -C /repo checkout -- . ; git -C /repo reset -q
-grep -E "^(VIOLATION|KNOWN-FINDING|ENGINE)" /tmp/mutant.log | head -5
+git -C "$WT" checkout -q -- . ; git -C "$WT" clean -qfd
+grep -a -E "^(VIOLATION|KNOWN-FINDING|ENGINE)" /tmp/mutant.log | head -5
 tail -1 /tmp/mutant.log | cut -c1-200
 echo "rc=$rc"
 exit $rc
